@@ -58,7 +58,7 @@ def gen_dry_study(rng, i):
         st["restart"] = rng.random() < 0.45
     h, u, t, a = MATRIX[(i * 7) % len(MATRIX)]
     case.update({"hashws": h, "usetmp": u, "throttle": t, "attempts": a, "rlimit": rng.choice([0, 1, 2]),
-                 "kind": "dry"})
+                 "kind": "dry", "detached": i % 3 == 1})
     return case
 
 
@@ -113,7 +113,32 @@ def run_pair(job):
                 os.rename(os.path.join(d, "ran.log"), os.path.join(d, "ran.dry.log"))   # what the DRY run executed
             except OSError:
                 pass
-        rc, tail = e2e.launch("maestro", argv, d, env, logfile=os.path.join(d, "run.log"))
+        if which == "dry" and case.get("detached"):
+            # the DETACHED path: `maestro run --dry -y` (no -fg) stores the study and starts
+            # `nohup conductor ...` -- here a stub found first on PATH -- and the real conductor entry
+            # point is then run on the stored study in a sub-process of its own
+            bind = os.path.join(d, "bin")
+            os.makedirs(bind, exist_ok=True)
+            with open(os.path.join(bind, "conductor"), "w") as f:
+                f.write("#!/bin/sh\necho stub-conductor \"$@\" >> %s\nexit 0\n" % os.path.join(d, "stub.log"))
+            os.chmod(os.path.join(bind, "conductor"), 0o755)
+            argv0 = [a for a in argv if a != "-fg"]
+            rc0, tail0 = e2e.launch("maestro", argv0, d, {"PATH": bind + os.pathsep + os.environ.get("PATH", ""),
+                                                         "E2E_SCRIPTED": env["E2E_SCRIPTED"]},
+                                    logfile=os.path.join(d, "run.log"))
+            import time
+            for _ in range(100):                  # start_process does not wait for the shell it starts
+                if rc0 != 0 or os.path.exists(os.path.join(d, "stub.log")):
+                    break
+                time.sleep(0.1)
+            if rc0 != 0:
+                rc, tail = rc0, "maestro run --dry -y: " + tail0
+            elif not os.path.exists(os.path.join(d, "stub.log")):
+                rc, tail = 98, "maestro run --dry -y did not launch a conductor: " + tail0
+            else:
+                rc, tail = e2e.launch("conductor", ["-t", 1, out], d, env, logfile=os.path.join(d, "run.log"))
+        else:
+            rc, tail = e2e.launch("maestro", argv, d, env, logfile=os.path.join(d, "run.log"))
         res[which] = {"rc": rc, "tail": tail[-1200:]}
     return res
 
@@ -283,10 +308,11 @@ def judge(case, d, res):
 
 
 def slim(case):
-    return {k: case[k] for k in ("steps", "params", "attempts", "throttle", "rlimit", "hashws", "usetmp", "shape")}
+    return {k: case.get(k) for k in ("steps", "params", "attempts", "throttle", "rlimit", "hashws", "usetmp", "shape", "detached")}
 
 
 def run_cases(ck, cases, tag="C17_e2e"):
+    tag = e2e.utag(tag)
     work = os.path.join(common.WORK, tag + "_runs")
     shutil.rmtree(work, ignore_errors=True)
     jobs = [(c, os.path.join(work, "c%d" % i)) for i, c in enumerate(cases)]
@@ -300,7 +326,8 @@ def run_cases(ck, cases, tag="C17_e2e"):
             viol, prob, ecase, info = [], ["harness could not interpret the runs: %r" % (e,)], None, {"polls": 0, "instances": 0}
         rec = dict(slim(case), rc_dry=res["dry"]["rc"], rc_real=res["real"]["rc"])
         if viol:
-            ck.violation("C17 e2e (maestro run --dry%s%s -t %d -a %d): %s" % (
+            ck.violation("C17 e2e (maestro run --dry%s%s%s -t %d -a %d): %s" % (
+                " [detached: stored, then the conductor entry point]" if case.get("detached") else " -fg",
                 " --hashws" if case["hashws"] else "", " --usetmp" if case["usetmp"] else "",
                 case["throttle"], case["attempts"], viol[0]), dict(rec, all=viol[:6]))
         elif prob:
@@ -310,6 +337,7 @@ def run_cases(ck, cases, tag="C17_e2e"):
             lit_cases.append(rec)
         ck.count("c17e2e:" + json.dumps(slim(case), sort_keys=True), nontrivial=info["instances"] >= 2)
         dist["hashws=%s,usetmp=%s" % (case["hashws"], case["usetmp"])] += 1
+        dist["path:" + ("detached" if case.get("detached") else "foreground")] += 1
         dist["throttle:%d" % case["throttle"]] += 1
         dist["attempts:%d" % case["attempts"]] += 1
         dist["instances:%02d" % min(info["instances"], 20)] += 1
@@ -334,6 +362,7 @@ def run_cases(ck, cases, tag="C17_e2e"):
                 mo = common.coq_eval(tag + "_e", H.HEADER, "model_obs (%s)" % lits[i])
                 ck.mismatch("C17 e2e: model and dry-run observations differ", lit_cases[i], mo[-2500:])
     dist["model_compared"] = len(lits)
+    e2e.sweep()
     return dict(sorted(dist.items()))
 
 
